@@ -857,6 +857,9 @@ func (m *machine) protect(f func()) {
 }
 
 func runCase(t *rapid.T, v variant) {
+	if vstat.OverBudget() {
+		return
+	}
 	vstat.Case()
 	m := &machine{t: t, v: v, log: &caseLog{}, start: time.Now()}
 	log.SetOutput(m.log)
@@ -1160,6 +1163,9 @@ func TestC06Channels(t *testing.T) { rapid.Check(t, func(t *rapid.T) { runCase(t
 // section), then sends and commits once more; the receiver is then drained. Passes when the
 // order holds, or when the disagreement is the listed known finding.
 func TestC06RelaxedWriteTimeout(t *testing.T) {
+	if vstat.OverBudget() {
+		return
+	}
 	vstat.Case()
 	m := &machine{t: t, v: vRelaxed, log: &caseLog{}, nS: 1, nR: 1, padLen: 2 << 20, start: time.Now()}
 	log.SetOutput(m.log)
